@@ -1339,7 +1339,29 @@ func (e *scanExec) do(op []string) string {
 			return "bad-op"
 		}
 		e.ensureConf()
-		return strconv.FormatBool(e.st.ShouldIgnore(&mock.File{Name: strings.Join(segs, "/")}))
+		rel := strings.Join(segs, "/")
+		got := e.st.ShouldIgnore(&mock.File{Name: rel})
+		// C17: the eligibility decision about one name (what recover() asks about a cached file at start-up): hidden
+		// leaf name, an effective ignore pattern, or include patterns configured and none matching - all judged on
+		// the name relative to the outgoing directory
+		want := !e.hidden && strings.HasPrefix(filepath.Base(rel), ".")
+		for _, r := range e.specIgnore() {
+			if r.MatchString(rel) {
+				want = true
+			}
+		}
+		if !want && len(e.incl) > 0 {
+			want = true
+			for _, p := range e.incl {
+				if regexp.MustCompile(p.regexText()).MatchString(rel) {
+					want = false
+				}
+			}
+		}
+		if got != want {
+			e.fail("ignore-wrong", "ShouldIgnore(%q) = %v, the eligibility predicate says %v", rel, got, want)
+		}
+		return strconv.FormatBool(got)
 
 	case op[0] == "include" && len(op) == 4:
 		segs, ok0 := parseRel(op[1])
